@@ -13,7 +13,7 @@
 (***************************************************************************)
 EXTENDS TraceBase, Ecdsa, Rfc6979, Projective
 
-VARIABLES l, bad, cnt, seenKey, seenR
+VARIABLES tl, tBad, tCnt, seenKey, seenR
 
 H(s)      == HexToInt(s)
 HB(s)     == HexToBytes(s)
@@ -260,27 +260,27 @@ StatefulVerdict(ev) ==
           IF known THEN seenKey ELSE [k \in DOMAIN seenKey \cup {key} |-> IF k = key THEN <<ev.r, ev.s>> ELSE seenKey[k]],
           IF ~fresh THEN seenR ELSE [k \in DOMAIN seenR \cup {ev.r} |-> IF k = ev.r THEN key ELSE seenR[k]] >>
 
-Init == /\ l = 1 /\ bad = 0 /\ cnt = [k \in Classes \cup {"_any"} |-> 0]
+Init == /\ tl = 1 /\ tBad = 0 /\ tCnt = [k \in Classes \cup {"_any"} |-> 0]
         /\ seenKey = <<>> /\ seenR = <<>>
 
 Step ==
-  /\ l <= NLog
-  /\ LET ev == Log[l] IN
+  /\ tl <= NLog
+  /\ LET ev == Log[tl] IN
      IF IsStateful(ev)
      THEN LET v == StatefulVerdict(ev) IN
-          /\ bad' = IF v[1] THEN bad ELSE bad + 1
-          /\ (IF v[1] THEN TRUE ELSE Mismatch(l, ev))
-          /\ cnt' = BumpAll(cnt, v[2])
+          /\ tBad' = IF v[1] THEN tBad ELSE tBad + 1
+          /\ (IF v[1] THEN TRUE ELSE Mismatch(tl, ev))
+          /\ tCnt' = BumpAll(tCnt, v[2])
           /\ seenKey' = v[3] /\ seenR' = v[4]
      ELSE LET v == Verdict(ev) IN
-          /\ bad' = IF v[1] THEN bad ELSE bad + 1
-          /\ (IF v[1] THEN TRUE ELSE Mismatch(l, ev))
-          /\ cnt' = BumpAll(cnt, v[2])
+          /\ tBad' = IF v[1] THEN tBad ELSE tBad + 1
+          /\ (IF v[1] THEN TRUE ELSE Mismatch(tl, ev))
+          /\ tCnt' = BumpAll(tCnt, v[2])
           /\ UNCHANGED <<seenKey, seenR>>
-  /\ l' = l + 1
+  /\ tl' = tl + 1
 
-Finish == l = NLog + 1 /\ Done(l, bad, cnt) /\ l' = l + 1 /\ UNCHANGED <<bad, cnt, seenKey, seenR>>
+Finish == tl = NLog + 1 /\ Done(tl, tBad, tCnt) /\ tl' = tl + 1 /\ UNCHANGED <<tBad, tCnt, seenKey, seenR>>
 
 Next == Step \/ Finish
-Spec == Init /\ [][Next]_<<l, bad, cnt, seenKey, seenR>>
+Spec == Init /\ [][Next]_<<tl, tBad, tCnt, seenKey, seenR>>
 =============================================================================
